@@ -425,6 +425,10 @@ def _schedules(shard, ctx, res, only):
                     continue
                 res.outcome("schedules/ok")
                 res.nontrivial += 1
+                if nthreads == 2 and r.schedules > 3:
+                    longest = max(r.outcomes.values(), key=len)
+                    res.sample({"kernel": kernel, "params": case["params"], "threads_run_iterations": assignment, "schedules": r.schedules,
+                                "scheduling_points": r.max_points, "one_schedule_choices": longest[:40]}, cap=2)
     res.sample({"shard": shard, "schedules_explored": total_sched}, cap=1)
 
 
